@@ -236,6 +236,26 @@ pub fn c07(thorough: bool) -> Vec<Part> {
     b.flush_action = true;
     cfgs.push(b);
     {
+        // three pipelined requests of one client + a second client: batches of answers through
+        // enqueue_responses must arrive in supply order
+        let mut triple = tagged_get(0, 0);
+        triple.extend_from_slice(&tagged_get(0, 1));
+        triple.extend_from_slice(&tagged_get(0, 2));
+        let mut t0 = ClientCfg::adversary(vec![triple]);
+        t0.reads = true;
+        t0.can_close = false;
+        t0.can_shut_rd = false;
+        t0.can_shut_wr = false;
+        let mut t1 = ClientCfg::adversary(vec![tagged_get(1, 0), tagged_get(1, 1)]);
+        t1.reads = true;
+        t1.can_close = false;
+        t1.can_shut_rd = false;
+        t1.can_shut_wr = false;
+        let mut tcfg = SrvCfg::base("C07", "three pipelined requests + second client, answers supplied one by one or as one batch", vec![t0, t1]);
+        tcfg.max_outstanding_for_respond = 2;
+        cfgs.push(tcfg);
+    }
+    {
         // a client with a request in flight sends garbage (answered 400), closes; late client
         let mut g0 = ClientCfg::adversary(vec![tagged_get(0, 0), b"BAD LINE\r\n".to_vec()]);
         g0.reads = true;
@@ -603,6 +623,13 @@ pub fn c04_server(thorough: bool) -> Part {
     cfg.closure_all = true;
     cfg.max_depth = if thorough { 14 } else { 12 };
     explore(&mut part, &cfg, if thorough { 3_000_000 } else { 300_000 }, if thorough { 1800.0 } else { 60.0 });
+    // limits above the default: 60000 declared under 70000 is fine, 70001 is refused with (70000, 70001)
+    let head = |c: usize, n: usize| vec![format!("PUT /c{}/r0 HTTP/1.1\r\nContent-Length: {}\r\n\r\n", c, n).into_bytes()];
+    let mut cfg2 = SrvCfg::base("C04", "limit raised above the default (70000 / 51200): declared 60000 and 70001", vec![ClientCfg::well_behaved(head(0, 60000)), ClientCfg::well_behaved(head(1, 70001))]);
+    cfg2.limits = vec![70000, 51200];
+    cfg2.closure_all = true;
+    cfg2.max_depth = 12;
+    explore(&mut part, &cfg2, 300_000, if thorough { 600.0 } else { 60.0 });
     part
 }
 
